@@ -3,6 +3,7 @@ package main
 import (
 	"fmt"
 	"math/big"
+	"runtime"
 	"sort"
 	"strings"
 
@@ -349,4 +350,57 @@ func genC01(g *Gen) {
 		}
 	}
 	g.Parallel(tasks)
+	c01ViaParallel(g, ens)
+}
+
+// c01ViaParallel runs members of the ensemble the way the CLI does — through exec.Parallel — and
+// compares every slot with exec.Execute of that algorithm alone: no error, same chain, same program.
+// Small limits and a single processor make the executor's completion logic matter.
+func c01ViaParallel(g *Gen, ens []alg.ChainAlgorithm) {
+	for t := 0; t < g.pick(24, 200); t++ {
+		n := big.NewInt(int64(2 + g.R.Intn(5000)))
+		if t%4 == 0 {
+			n = g.R.Bits(64 + g.R.Intn(120))
+			n.SetBit(n, 0, 1)
+		}
+		k := 1 + g.R.Intn(4)
+		as := make([]alg.ChainAlgorithm, k)
+		for i := range as {
+			as[i] = ens[g.R.Intn(len(ens))]
+		}
+		limit := []int{1, 1, 2, k, k + 3}[t%5]
+		procs := []int{1, 2, 0}[t%3]
+		var rs []exec.Result
+		msg := ""
+		func() {
+			if procs > 0 {
+				defer runtime.GOMAXPROCS(runtime.GOMAXPROCS(procs))
+			}
+			p := exec.NewParallel()
+			p.SetConcurrency(limit)
+			msg = safe(func() { rs = p.Execute(n, as) })
+		}()
+		g.Count("via-parallel")
+		bad := ""
+		if msg != "" {
+			bad = "panic: " + msg
+		} else if len(rs) != k {
+			bad = fmt.Sprintf("%d results for %d algorithms", len(rs), k)
+		} else {
+			for i := range rs {
+				want := exec.Execute(n, as[i])
+				switch {
+				case rs[i].Err != nil:
+					bad = fmt.Sprintf("slot %d reports error %v", i, rs[i].Err)
+				case want.Err != nil:
+				case !equalInts(rs[i].Chain, want.Chain) || len(rs[i].Program) != len(want.Program):
+					bad = fmt.Sprintf("slot %d: chain %s, alone %s", i, encInts(rs[i].Chain), encInts(want.Chain))
+				}
+			}
+		}
+		if bad != "" {
+			g.Notes = append(g.Notes, fmt.Sprintf("VIOLATION: exec.Parallel (limit %d, GOMAXPROCS %d) on n=%v with %d ensemble members: %s", limit, procs, n, k, bad))
+			return
+		}
+	}
 }
